@@ -348,6 +348,11 @@ Fixpoint run (c : cfg) (s : st) (ops : list op) : st * list out :=
               let '(s2, rs) := run c s1 t in (s2, r :: rs)
   end.
 
+(* every oracle a history carries (the result of a GetPeers that had to sample) is one the
+   loop can produce *)
+Definition oks (outs : list out) : bool :=
+  forallb (fun o => match o with OGet ok _ => ok | _ => true end) outs.
+
 Definition valid_op (o : op) : bool :=
   match o with
   | Upd h p => forallb byte_ok h && valid_peer p
